@@ -62,12 +62,13 @@ def cpairs(pairs):
     return sorted(tuple(sorted(p)) for p in pairs)
 
 
-def rule_R1(chk, repo, vals):
-    rid = 'C04.R1'
+def rule_R1(chk, repo, vals, rid='C04.R1', only=None):
     chk.rule(rid, 'each contraction kernel denotes the network documented in its docstring diagram: which legs are '
                   'contracted, which tensor is conjugated, output leg order (network normal form; the order of the '
                   'tensordot calls and intermediate transposes is irrelevant)')
     for name, ref in REF.items():
+        if only is not None and name not in only:
+            continue
         try:
             fi, v, env = kernel_value(repo, name)
         except LegError as ex:
@@ -93,7 +94,7 @@ def rule_R1(chk, repo, vals):
                        {p.split('*')[0] for p in ref['open'] if '*' in p})
         chk.ob(rid, w, f'{name}: conjugated tensors {wantc}', c['conj'] == wantc, f'computed {c["conj"]}',
                key=f'{rid}|{name}|conj')
-    chk.floor(rid, len(vals), 7)
+    chk.floor(rid, len(vals), 7 if only is None else len(only))
 
 
 def close(v, other_name, rank):
@@ -102,8 +103,7 @@ def close(v, other_name, rank):
     return lg.tensordot(v, o, list(range(v.rank)), list(range(rank)), 'closing')
 
 
-def rule_R2(chk, repo, vals):
-    rid = 'C04.R2'
+def rule_R2(chk, repo, vals, rid='C04.R2'):
     chk.rule(rid, 'sibling agreement: the left step closed with R, the right step closed with L and the local '
                   'Hamiltonian paired with conj(B) are one and the same closed network (likewise the two overlap '
                   'steps); the output legs of the local operators are the partners of the legs of their argument in '
